@@ -227,6 +227,12 @@ def law_regex(rnd, ev, mods, imps, acc, forced=None):
                 pass
         acc.count("regex_laws_after_a_rule_with_a_broken_regex_on_the_same_architecture")
     oc, msg, et = outcome(compact, ev, acc)
+    if not forced and rnd.random() < 0.15:
+        # the same rule with its patterns passed by keyword (have_name_matching(regex=...)): the same outcome
+        ok, _mk, _ek = outcome(lambda: mk_rule(compact, "keywords"), ev, acc)
+        acc.count("regex_rules_with_the_pattern_passed_by_keyword")
+        if ok != oc:
+            HUB.violation("C11", f"regex-by-keyword-differs:{side}", f"the regex rule gave {oc}, the same rule with its patterns passed by keyword gave {ok}", {"case": case, "compact": compact})
     acc.hist("regex_kind", f"{k1 if side != 'object' else k2}:{side}")
     if unmatched:
         acc.count("unmatched_regex_cases")
